@@ -482,6 +482,20 @@ def run(tier: str, seed: int, replay: str | None = None) -> int:
         for case, impl in zip(cases, impls):
             if impl["failures"] or impl["junk"]:
                 continue
+            for fi, calls, tests in (impl.get("kw") or []):
+                f = case["files"][fi]
+                raw = pm.render_file(f).split("\n")
+                off = [(s, e, m, pm.doc_filter_mask(f["lang"] == "py", case.get("filters", {}), calls, raw, s, e)) for s, e, m in tests]
+                off = [t for t in off if t[2] != t[3]]
+                if off:
+                    chk.violation({"reason": "a block filter or the filter registry answers against its documented behaviour (docs/dry-linter.md `Available Filters`, "
+                                             "dry.filters) on a line range of this project (verdict of the Python mirror: the Coq model could not be built/evaluated, "
+                                             "see broken_obligations); entries: start, end, real answers, documented answers (1 kwarg, 2 import, 4 logger, 8 reraise, 16 registry)",
+                                   "file": f["name"], "ranges": off[:5],
+                                   "case": {k: case[k] for k in ("W", "k", "stream", "via", "order_seed", "storage_mode", "ignore", "filters", "files") if k in case}})
+                    break
+            if chk.violations:
+                break
             bad = _mirror_unexplained(case, impl)
             if bad:
                 chk.violation({"reason": "duplicate-code report violates: " + ", ".join(bad) + " (verdict of the Python mirror of the model: "
@@ -573,7 +587,7 @@ def run(tier: str, seed: int, replay: str | None = None) -> int:
     if chk.violations and not replay:
         # minimise the first failing input (mirror-guided, confirmed by the failing predicate on the implementation)
         v = chk.violations[0]
-        if "case" in v and "clauses" in v:
+        if "case" in v and "clauses" in v and "filter_answers" not in v:   # (the mirror that guides shrinking knows no block filters)
             try:
                 small = shrink(v["case"], _py_fails)
                 if _py_fails(small):
